@@ -90,6 +90,11 @@ type MDView struct {
 	icc    []byte
 }
 
+// String leaves the profile bytes themselves out.
+func (v MDView) String() string {
+	return fmt.Sprintf("{OK:%v Format:%s W:%d H:%d Bits:%d ICCLen:%d ICCNil:%v ICCErr:%s Err:%s}", v.OK, v.Format, v.W, v.H, v.Bits, v.ICCLen, v.ICCNil, v.ICCErr, v.Err)
+}
+
 func View(res LoadResult) MDView {
 	v := MDView{}
 	if res.Err != nil {
@@ -359,6 +364,38 @@ func ICCCorpus() []CorpusFile {
 			f = refmodel.BuildWebP(p)
 		}
 		out = append(out, CorpusFile{Name: fmt.Sprintf("icc%02d:%s", i, f.Truth.Format), Data: f.Bytes(), Fields: f.Truth.Fields, Gen: true})
+	}
+	// six files whose embedded profile is damaged (the loaders' failure paths are
+	// part of what concurrent callers share)
+	for i := 0; i < 6; i++ {
+		t := tape.New(tape.Mix(0xDA3A6ED, uint64(i)), nil)
+		var f *refmodel.File
+		switch i % 3 {
+		case 0:
+			p := refmodel.DrawPNG(t, 1, []int{300}, false)
+			p.Damage, p.DamageArg = [...]string{"zlib-header", "cutstream"}[i/3], uint32(i)
+			p.BodyLen = 20
+			f = refmodel.BuildPNG(p)
+		case 1:
+			for {
+				p := refmodel.DrawJPEG(t, 1, []int{1500}, true, nil)
+				if p.Damage != "" {
+					p.BodyLen = 20
+					f = refmodel.BuildJPEG(p)
+					break
+				}
+			}
+		default:
+			for {
+				p := refmodel.DrawWebP(t, 2, 1, []int{1500}, true)
+				if p.Damage != "" {
+					p.BodyLen = 20
+					f = refmodel.BuildWebP(p)
+					break
+				}
+			}
+		}
+		out = append(out, CorpusFile{Name: fmt.Sprintf("iccdamaged%02d:%s", i, f.Truth.Format), Data: f.Bytes(), Fields: f.Truth.Fields, Gen: true})
 	}
 	iccCorpus = out
 	return out
